@@ -12,10 +12,11 @@ From WireGen Require Import Tags Writer Reader.
 
 Definition i_ss : nat := tix "SenderSupplied".
 Definition i_bfc : nat := tix "BusinessFunctionCode".
+Definition i_ua : nat := tix "UnstructuredAddenda".
 
 (* tags whose round trip is proved *)
 Definition covered (i : nat) : bool :=
-  (i =? i_ss) || (i =? i_bfc) || layout_ok (nth i tags tag_Amount).
+  (i =? i_ss) || (i =? i_bfc) || (i =? i_ua) || layout_ok (nth i tags tag_Amount).
 
 (* the reader's minimum-length guard admits the text of this value (static for 48 tags; for the 8 tags whose
    shortest canonical text is below the guard it is a condition on the value, which validity implies) *)
@@ -28,7 +29,7 @@ Definition guard_ok (d : tagdesc) (v : tagval) : bool :=
 
 (* the canonical values of a covered tag: its own marker, canonical elements, FAIM text *)
 Definition canonical_value (i : nat) (v : tagval) : bool :=
-  (if i =? i_ss then ss_canonical v else if i =? i_bfc then bfc_canonical v
+  (if i =? i_ss then ss_canonical v else if i =? i_bfc then bfc_canonical v else if i =? i_ua then ua_canonical v
    else canonical_tag (nth i tags tag_Amount) v && guard_ok (nth i tags tag_Amount) v) &&
   bytes_eqb (tv_marker v) (t_marker (nth i tags tag_Amount)) && values_plain v.
 
@@ -58,6 +59,10 @@ Proof. reflexivity. Qed.
 Lemma bfc_format : t_format tag_BusinessFunctionCode = [FTag; FAlpha 0 3; FBfcTtc 1 3]. Proof. reflexivity. Qed.
 Lemma bfc_options : t_format_takes_options tag_BusinessFunctionCode = true. Proof. reflexivity. Qed.
 Lemma bfc_nelems : length (t_elems tag_BusinessFunctionCode) = 2. Proof. reflexivity. Qed.
+Lemma ua_is : nth i_ua tags tag_Amount = tag_UnstructuredAddenda. Proof. reflexivity. Qed.
+Lemma ua_parse : t_parse tag_UnstructuredAddenda = [PGuard CLt 10; PTag false; PAddenda 0 1]. Proof. reflexivity. Qed.
+Lemma ua_format : t_format tag_UnstructuredAddenda = [FTag; FAlpha 0 4; FAddenda 0 1]. Proof. reflexivity. Qed.
+Lemma ua_nelems : length (t_elems tag_UnstructuredAddenda) = 2. Proof. reflexivity. Qed.
 Lemma ntags_len : length tags = ntags. Proof. reflexivity. Qed.
 Global Opaque tags.
 
@@ -72,7 +77,9 @@ Proof.
   - destruct (i =? i_bfc) eqn:Eb.
     + apply Nat.eqb_eq in Eb. subst i. rewrite bfc_is.
       apply (bfc_round_trip v variable Hv bfc_parse bfc_format bfc_options bfc_nelems).
-    + cbn [orb] in Hc. apply andb_true_iff in Hv as [Hv Hg]. unfold guard_ok in Hg.
+    + destruct (i =? i_ua) eqn:Eu.
+      { apply Nat.eqb_eq in Eu. subst i. rewrite ua_is. apply (ua_round_trip v variable Hv ua_parse ua_format ua_nelems). }
+      cbn [orb] in Hc. apply andb_true_iff in Hv as [Hv Hg]. unfold guard_ok in Hg.
       destruct (guard_static (nth i tags tag_Amount)) eqn:Egs; [apply (tag_roundtrip_static _ v variable Hc Egs Hv)|].
       cbn [orb] in Hg. apply andb_true_iff in Hg as [Hg1 Hg2].
       apply (tag_roundtrip _ v variable Hc Hv). unfold guard_admits, guard_admits_b in *.
